@@ -4,6 +4,8 @@
 EXTENDS BodyLimit, Json
 ML == @@MAXL@@
 ASSUME ndJsonSerialize("vectors.ndjson",
-  SetToSeq(UNION { UNION { UNION { { [kind |-> k, lim |-> l, total |-> t, pieces |-> c, expect |-> Expected(l, t)]
-                                     : c \in Comps(t) } : t \in 0..(2 * l + 1) } : l \in 1..ML } : k \in Kinds }))
+  SetToSeq(UNION { UNION { UNION { { [kind |-> k, lim |-> l, total |-> t, pieces |-> c, precap |-> pc, claim |-> cl,
+                                      expect |-> Expected(l, t, cl)]
+                                     : c \in Comps(t), pc \in PreCaps(k), cl \in Claims(k) }
+                                   : t \in 0..(2 * l + 1) } : l \in 1..ML } : k \in Kinds }))
 =============================================================================
